@@ -1,5 +1,6 @@
 #!/bin/sh
-# offline setup: nothing to build (python3 + verus are pre-installed); warm up verus once
+# offline setup: python3 + verus are pre-installed; warm up verus and pre-build the dependencies used by the macro
+# expansion step (cargo +nightly rustc -Zunpretty=expanded on a scratch copy of /repo) into build/exp-target
 set -e
 cd "$(dirname "$0")"
 mkdir -p build evidence
@@ -9,4 +10,11 @@ verus! { proof fn warm() ensures 1 + 1 == 2int {} }
 fn main() {}
 EOW
 (cd build && verus warmup.rs >/dev/null 2>&1 || true)
+python3 - <<'EOP' || true
+import sys
+sys.path.insert(0, "vx")
+import gen
+print("expanded:", gen.ensure_expanded())
+print("derive samples:", gen.ensure_expanded("units/u2_sysdata/derive_samples.rs"))
+EOP
 echo setup ok
